@@ -38,6 +38,10 @@ type (
 	HashedTable struct {
 		Rows map[string][]*any
 		Keys map[string]*Map
+		// Order lists the keys in order of first appearance: the joins visit
+		// them in that order, so that what they emit does not follow the
+		// iteration order of the two maps (which differs from run to run)
+		Order []string
 	}
 )
 
@@ -102,6 +106,7 @@ func ToCatalog(rows []any, ident string, identRight string, joinExpr sqlparser.E
 		if _, ok := hashedTable.Keys[hash]; !ok {
 			hashedTable.Rows[hash] = make([]*any, 0)
 			hashedTable.Keys[hash] = &mapper
+			hashedTable.Order = append(hashedTable.Order, hash)
 		}
 		hashedTable.Rows[hash] = append(hashedTable.Rows[hash], &r)
 	}
@@ -198,7 +203,7 @@ func (j *Join) HashJoin() ([]any, error) {
 
 func (j *Join) HashJoinFunc(l, r *HashedTable) ([]any, error) {
 	slice := make([]any, 0)
-	for lk := range l.Rows {
+	for _, lk := range l.Order {
 		switch ok, matches, err := j.HashJoinMatchFunc(lk, l, r); {
 		case ok:
 			{
@@ -220,7 +225,8 @@ func (j *Join) HashJoinFunc(l, r *HashedTable) ([]any, error) {
 func (j *Join) JoinFunc(l, r *HashedTable) ([]any, error) {
 	var mut sync.Mutex
 	slice := make([]any, 0)
-	for lk, lv := range l.Keys {
+	for _, lk := range l.Order {
+		lv := l.Keys[lk]
 		switch ok, matches, err := j.JoinMatchFunc(lk, lv, l, r); {
 		case ok:
 			{
@@ -244,12 +250,15 @@ func (j *Join) JoinFunc(l, r *HashedTable) ([]any, error) {
 func (j *Join) ParallelJoinFunc(l, r *HashedTable) ([]any, error) {
 	var mut sync.Mutex
 	var wg sync.WaitGroup
-	slice := make([]any, 0)
+	// one slot per key: the workers finish in any order, the result keeps the
+	// order of the keys
+	results := make([][]any, len(l.Order))
 
 	var failure error
-	for lk, lv := range l.Keys {
+	for i, lk := range l.Order {
+		lv := l.Keys[lk]
 		wg.Add(1)
-		go func(lk string, lv *map[string]any) {
+		go func(i int, lk string, lv *map[string]any) {
 			defer wg.Done()
 			defer func() {
 				if r := recover(); r != nil {
@@ -261,9 +270,7 @@ func (j *Join) ParallelJoinFunc(l, r *HashedTable) ([]any, error) {
 			switch ok, matches, err := j.JoinMatchFunc(lk, lv, l, r); {
 			case ok:
 				{
-					mut.Lock()
-					slice = append(slice, matches...)
-					mut.Unlock()
+					results[i] = matches
 				}
 			case !ok && err != nil:
 				{
@@ -276,11 +283,15 @@ func (j *Join) ParallelJoinFunc(l, r *HashedTable) ([]any, error) {
 					break
 				}
 			}
-		}(lk, lv)
+		}(i, lk, lv)
 	}
 	wg.Wait()
 	if failure != nil {
 		return nil, failure
+	}
+	slice := make([]any, 0)
+	for _, matches := range results {
+		slice = append(slice, matches...)
 	}
 	return slice, nil
 }
@@ -288,7 +299,8 @@ func (j *Join) ParallelJoinFunc(l, r *HashedTable) ([]any, error) {
 func (j *Join) JoinMatchFunc(lk string, lv *map[string]any, l, r *HashedTable) (bool, []any, error) {
 	slice := make([]any, 0)
 	matched := false
-	for rk, rv := range r.Keys {
+	for _, rk := range r.Order {
+		rv := r.Keys[rk]
 		_current := make(Map)
 		maps.Copy(_current, *lv)
 		maps.Copy(_current, *rv)
@@ -361,11 +373,11 @@ func (j *Join) JoinMatchFunc(lk string, lv *map[string]any, l, r *HashedTable) (
 func (j *Join) ParallelHashJoinFunc(l, r *HashedTable) ([]any, error) {
 	var mut sync.Mutex
 	var wg sync.WaitGroup
-	slice := make([]any, 0)
+	results := make([][]any, len(l.Order))
 	var failure error
-	for lk := range l.Rows {
+	for i, lk := range l.Order {
 		wg.Add(1)
-		go func(lk string) {
+		go func(i int, lk string) {
 			defer wg.Done()
 			defer func() {
 				if r := recover(); r != nil {
@@ -377,9 +389,7 @@ func (j *Join) ParallelHashJoinFunc(l, r *HashedTable) ([]any, error) {
 			switch ok, matches, err := j.HashJoinMatchFunc(lk, l, r); {
 			case ok:
 				{
-					mut.Lock()
-					slice = append(slice, matches...)
-					mut.Unlock()
+					results[i] = matches
 				}
 			case !ok && err != nil:
 				{
@@ -392,11 +402,15 @@ func (j *Join) ParallelHashJoinFunc(l, r *HashedTable) ([]any, error) {
 					break
 				}
 			}
-		}(lk)
+		}(i, lk)
 	}
 	wg.Wait()
 	if failure != nil {
 		return nil, failure
+	}
+	slice := make([]any, 0)
+	for _, matches := range results {
+		slice = append(slice, matches...)
 	}
 	return slice, nil
 }
